@@ -18,6 +18,8 @@ CHECKS = {
          "Lean 4 proof (induction over Newton iterations and probes) + bit-exact controller correspondence + first-row oracle", "§3 C11"),
  "C14": ("Lean frame theorem (a call that leaves the shared state unchanged gives fresh results in every history) instantiated on effect summaries that a translator re-derives from the solver sources on every run (attribute stores on Opt, stores through parameter aliases, module-level state, memoisation), decided empty by the kernel; backed by random call histories on shared Opt/model/y0 objects compared bit-for-bit with fresh-object calls",
          "Lean 4 proof (induction over call histories) over translator-generated effect summaries + history differential runs", "§3 C14"),
+ "C13": ("the code /repo generates now (inline sparse/dense, rendered module; F, J, Hvp) for a model zoo is translated to a small IR; Lean proves a purity analysis sound for a heap semantics (arguments never written, result freshly allocated, on every initial heap) and decides that every generated program passes; random call histories on the real objects retain arguments and results and check bit-identity, unchanged retained results and history independence",
+         "Lean 4 proof (soundness of a static analysis by induction over statements) on translator-generated IR + retained-object call histories", "§3 C13"),
 }
 REASONS = {}
 props = [json.loads(l)["id"] for l in open(os.path.join(V, "properties.jsonl"))]
